@@ -196,7 +196,7 @@ class CliSim:
                         r = rng.random()
                         if r < 0.6 and real:
                             p = rng.choice(real)
-                            rows.append([p[0], p[1], 'hit'])
+                            rows.append([p[0], p[1], rng.choice(['hit', 'hit', 'mooring #3', 'site A#', '#1 buoy'])])
                         elif r < 0.75:
                             w = worldgen.World(world)
                             polys = [pp for pp in (w.polygons() or []) if pp is not None]
